@@ -55,6 +55,9 @@ fn run_history(hist: &[(BpOp, FrRes)], reply_ack: bool, res: &Resources, rep: &m
     bp.h.borrow_mut().set_reply_ack_flag(reply_ack);
     let ctx = |i: usize| json!({"check":"C18","reply_ack":reply_ack,"history": hist.iter().map(|(o, r)| format!("{o:?} -> {r:?}")).collect::<Vec<_>>(), "step": i});
     for (i, (op, hres)) in hist.iter().enumerate() {
+        // a case = (REPLY_ACK, the history up to and including this step): shared prefixes of
+        // different histories are the same case
+        let case_key = format!("{reply_ack}|{:?}", &hist[..=i]);
         {
             let mut r = bp.rec.lock().unwrap();
             r.log.clear();
@@ -92,11 +95,11 @@ fn run_history(hist: &[(BpOp, FrRes)], reply_ack: bool, res: &Resources, rep: &m
             match (&out, should_succeed) {
                 (Ok(0), true) => {
                     rep.outcome("acked:success");
-                    rep.nontrivial += 1;
+                    rep.nontrivial_key(&case_key);
                 }
                 (Err(_), false) => {
                     rep.outcome("acked:failure-reported");
-                    rep.nontrivial += 1;
+                    rep.nontrivial_key(&case_key);
                 }
                 (Ok(v), _) => {
                     rep.outcome("acked:wrong-status");
@@ -112,7 +115,7 @@ fn run_history(hist: &[(BpOp, FrRes)], reply_ack: bool, res: &Resources, rep: &m
                 rep.violation(&sig("unacked-call-failed"), &format!("{:?}: without REPLY_ACK the proxy returned {:?}", op, out), ctx(i));
             } else {
                 rep.outcome("unacked:sent");
-                rep.nontrivial += 1;
+                rep.nontrivial_key(&case_key);
             }
         }
     }
@@ -232,7 +235,7 @@ pub fn run(rep: &mut Report) {
     rep.exhaustive = true;
     rep.sample(json!({"history":["ShmemMap(..) -> Errno(11)","SharedAdd(..) -> Ok(0)"],"reply_ack":true,"expect":"first call Err, second call Ok(0)"}));
     rep.sample(json!({"part":"ack_bytes","op":"SharedLookup","handler":"Errno(22)","expect_ack_value":"0xffffffffffffffea"}));
-    rep.rule = "5 request kinds x UUID / mapping-descriptor lattice x handler results {Ok(0), Ok(1), Ok(2^32), Ok(2^64-1), Err(errno in {1,2,11,22,38,2^31-1}), Err(no errno)} x REPLY_ACK on/off; all histories of length 1 and 2 and of length 3 over a reduced alphabet (thorough: length 3 with every (kind, result) first, and all histories of length 4 over 5 kinds x 4 results); with a raw peer in place of the proxy the acknowledgement bytes for every (kind, result, REPLY_ACK, NEED_REPLY). Non-trivial = steps whose handler call and proxy status (or absence of an acknowledgement) were verified".into();
+    rep.rule = "5 request kinds x UUID / mapping-descriptor lattice x handler results {Ok(0), Ok(1), Ok(2^32), Ok(2^64-1), Err(errno in {1,2,11,22,38,2^31-1}), Err(no errno)} x REPLY_ACK on/off; all histories of length 1 and 2 and of length 3 over a reduced alphabet (thorough: length 3 with every (kind, result) first, and all histories of length 4 over 5 kinds x 4 results); with a raw peer in place of the proxy the acknowledgement bytes for every (kind, result, REPLY_ACK, NEED_REPLY). Non-trivial = distinct (REPLY_ACK, history prefix) cases whose handler call and proxy status (or absence of an acknowledgement) were verified; a prefix shared by several histories counts once".into();
 }
 
 pub fn replay(case: &Value, rep: &mut Report) {
